@@ -13,6 +13,8 @@ use std::panic::AssertUnwindSafe;
 pub mod util;
 #[path = "ops_frag.rs"]
 mod ops_frag;
+#[path = "ops_codec.rs"]
+mod ops_codec;
 
 thread_local! {
     static LAST_PANIC: RefCell<String> = RefCell::new(String::new());
@@ -26,6 +28,22 @@ pub async fn run_line(line: &str) -> String {
         "frag_seq" => ops_frag::frag_seq(&args),
         "frag_make" => ops_frag::frag_make(&args),
         "frag_rt" => ops_frag::frag_roundtrip(&args),
+        "socks_req_read" => ops_codec::socks_req_read(&args).await,
+        "socks_req_write" => ops_codec::socks_req_write(&args).await,
+        "socks_resp_read" => ops_codec::socks_resp_read(&args).await,
+        "socks_resp_write" => ops_codec::socks_resp_write(&args).await,
+        "http_req_read" => ops_codec::http_req_read(&args).await,
+        "http_resp_read" => ops_codec::http_resp_read(&args).await,
+        "http_req_write" => ops_codec::http_req_write(&args).await,
+        "http_resp_write" => ops_codec::http_resp_write(&args).await,
+        "frame_decode" => ops_codec::frame_decode(&args),
+        "frame_encode" => ops_codec::frame_encode(&args).await,
+        "frame_stream" => ops_codec::frame_stream(&args).await,
+        "udp_decode" => ops_codec::udp_decode(&args),
+        "udp_encode" => ops_codec::udp_encode(&args),
+        "target_parse" => ops_codec::target_parse(&args),
+        "target_print" => ops_codec::target_print(&args),
+        "connect_write" => ops_codec::connect_write(&args).await,
         _ => format!("UNKNOWN-OP {}", op),
     }
 }
